@@ -12,14 +12,53 @@ COMMON_ASSUMPTIONS = [
 ASSUMPTIONS = {}
 JOBS = {}
 
-def vp(name, nv, nc, mode, extra=(), **kw):
-    return Job(name, 'C01_vpsc.cpp', ['-DNV=%d' % nv, '-DNC=%d' % nc, '-DMODE=%d' % mode] + list(extra), ['libvpsc'], **kw)
+def vp(name, nv, nc, mode, extra=(), libs=('libvpsc',), **kw):
+    return Job(name, 'C01_vpsc.cpp', ['-DNV=%d' % nv, '-DNC=%d' % nc, '-DMODE=%d' % mode] + list(extra), list(libs), **kw)
 
-B_VPSC = 'desired positions integers in [-4,4], gaps integers in [-2,3], every (left,right) assignment with left!=right'
+B_VPSC = 'desired positions integers in [-4,4], gaps integers in [-2,3], every (left,right) assignment with left!=right (symbolic choice), weights 1, scales 1 unless stated'
+AV = ['-DAVOID_COPY']
 JOBS['C01'] = {
     'quick': [
-        vp('inc-satisfy-n3m2', 3, 2, 0, bounds='IncSolver::satisfy, n=3 m=2; ' + B_VPSC),
+        vp('inc-satisfy-n3m3', 3, 3, 0, bounds='IncSolver::satisfy, n=3 m=3 (all 216 structures incl. cycles, duplicates); ' + B_VPSC),
         vp('inc-solve-n3m2-eq', 3, 2, 1, ['-DEQSYM'], bounds='IncSolver::solve, n=3 m=2, equality flag symbolic; ' + B_VPSC),
+        vp('static-satisfy-n3m2', 3, 2, 2, bounds='Solver::satisfy on acyclic structures, n=3 m=2; ' + B_VPSC),
+        vp('static-solve-n3m2', 3, 2, 3, bounds='Solver::solve on acyclic structures, n=3 m=2; ' + B_VPSC),
+        vp('inc-resolve-n3m2', 3, 2, 1, ['-DHISTORY=1'], bounds='IncSolver::solve, move all desired positions (symbolic), solve again; n=3 m=2; ' + B_VPSC),
+        vp('inc-addcons-n3m2', 3, 2, 0, ['-DHISTORY=2'], bounds='IncSolver::satisfy, addConstraint(symbolic) on the live solver, satisfy again; n=3 m=2(+1); ' + B_VPSC),
+        vp('inc-solve-n3m2-wts', 3, 2, 1, ['-DWEIGHTS=1,2,1', '-DSCALES=1,2,1'], bounds='IncSolver::solve, weights (1,2,1) scales (1,2,1); n=3 m=2; ' + B_VPSC),
+        vp('inc-solve-n2m1-nonint', 2, 1, 1, ['-DNONINT'], bounds='IncSolver::solve, arbitrary double desired positions in [-4,4], gap in [-2,3] (inexact arithmetic, banded comparisons); n=2 m=1'),
     ],
-    'thorough': [],
+    'thorough': [
+        vp('inc-solve-n3m3', 3, 3, 1, bounds='IncSolver::solve, n=3 m=3 all 216 structures; ' + B_VPSC),
+        vp('inc-satisfy-n3m3-eq', 3, 3, 0, ['-DEQSYM'], bounds='IncSolver::satisfy, n=3 m=3, equality flags symbolic; ' + B_VPSC),
+        vp('static-solve-n3m3', 3, 3, 3, bounds='Solver::solve on acyclic structures n=3 m=3; ' + B_VPSC),
+        vp('inc-resolve-n3m3', 3, 3, 1, ['-DHISTORY=1'], bounds='solve / move desired positions / solve; n=3 m=3; ' + B_VPSC),
+        vp('inc-addcons-n3m3', 3, 3, 1, ['-DHISTORY=2'], bounds='solve / addConstraint / solve; n=3 m=3(+1); ' + B_VPSC),
+        vp('inc-solve-n3m3-wts', 3, 3, 1, ['-DWEIGHTS=2,1,2', '-DSCALES=1,2,1'], bounds='weights (2,1,2), scales (1,2,1); n=3 m=3; ' + B_VPSC),
+        vp('inc-satisfy-n4m3', 4, 3, 0, bounds='IncSolver::satisfy n=4 m=3 all structures; ' + B_VPSC),
+        vp('inc-solve-n3m2-nonint', 3, 2, 1, ['-DNONINT'], bounds='IncSolver::solve, arbitrary doubles; n=3 m=2'),
+        vp('avoid-solve-n3m3', 3, 3, 1, AV, libs=['libavoid'], bounds='Avoid::IncSolver::solve (libavoid/vpsc.cpp) n=3 m=3; ' + B_VPSC),
+    ],
 }
+ASSUMPTIONS['C01'] = ['static Solver is only run on acyclic constraint graphs (its documented domain)', 'a constraint relates two distinct variables (left != right)']
+JOBS['C02'] = {
+    'quick': [
+        vp('inc-kkt-n3m3', 3, 3, 1, ['-DKKT'], bounds='IncSolver::solve + KKT certificate check, n=3 m=3 all structures; ' + B_VPSC),
+        vp('inc-kkt-permute-n3m2', 3, 2, 1, ['-DKKT', '-DPERMUTE'], bounds='+ reversed variable/constraint order gives the same optimum; n=3 m=2; ' + B_VPSC),
+        vp('static-kkt-n3m2', 3, 2, 3, ['-DKKT'], bounds='Solver::solve (acyclic) + KKT; n=3 m=2; ' + B_VPSC),
+        vp('avoid-kkt-n3m2', 3, 2, 1, ['-DKKT'] + AV, libs=['libavoid'], bounds='Avoid::IncSolver::solve + KKT; n=3 m=2; ' + B_VPSC),
+        vp('inc-kkt-resolve-n3m2', 3, 2, 1, ['-DKKT', '-DHISTORY=1'], bounds='solve / move desired positions / solve, KKT after each; n=3 m=2; ' + B_VPSC),
+        vp('inc-kkt-n3m2-scaled', 3, 2, 1, ['-DKKT', '-DWEIGHTS=1,2,1', '-DSCALES=1,2,1'], bounds='weights (1,2,1) scales (1,2,1); n=3 m=2; ' + B_VPSC),
+    ],
+    'thorough': [
+        vp('inc-kkt-permute-n3m3', 3, 3, 1, ['-DKKT', '-DPERMUTE'], bounds='n=3 m=3 all structures, KKT + order independence; ' + B_VPSC),
+        vp('static-kkt-n3m3', 3, 3, 3, ['-DKKT'], bounds='Solver::solve (acyclic) n=3 m=3; ' + B_VPSC),
+        vp('avoid-kkt-n3m3', 3, 3, 1, ['-DKKT'] + AV, libs=['libavoid'], bounds='Avoid::IncSolver n=3 m=3; ' + B_VPSC),
+        vp('inc-kkt-resolve-n3m3', 3, 3, 1, ['-DKKT', '-DHISTORY=1'], bounds='re-solve after moving desired positions, n=3 m=3; ' + B_VPSC),
+        vp('inc-kkt-addcons-n3m2', 3, 2, 1, ['-DKKT', '-DHISTORY=2'], bounds='solve / addConstraint / solve with KKT; n=3 m=2(+1); ' + B_VPSC),
+        vp('inc-kkt-n3m3-scaled', 3, 3, 1, ['-DKKT', '-DWEIGHTS=2,1,2', '-DSCALES=1,2,1'], bounds='weights (2,1,2) scales (1,2,1); n=3 m=3; ' + B_VPSC),
+        vp('inc-kkt-n4m3', 4, 3, 1, ['-DKKT'], bounds='n=4 m=3 all structures; ' + B_VPSC),
+        vp('inc-kkt-n4m4-chain', 4, 4, 1, ['-DKKT', '-DSTRUCT_L=0,1,2,0', '-DSTRUCT_R=1,2,3,3'], bounds='n=4 m=4 fixed structure chain+chord; ' + B_VPSC),
+    ],
+}
+ASSUMPTIONS['C02'] = ASSUMPTIONS['C01'] + ['optimality is established by checking a KKT certificate (primal feasibility, tight active set forming a forest, multipliers >= -2e-4, stationarity residual <= 1e-5); for a strictly convex QP this implies the unique optimum']
